@@ -14,9 +14,33 @@ use std::path::{Path, PathBuf};
 use std::sync::Arc;
 use vkit::{Monitor, Rng};
 
+thread_local! {
+    /// long passphrase stem shared by every password of the current history (None: short passwords)
+    static STEM: std::cell::RefCell<Option<String>> = const { std::cell::RefCell::new(None) };
+}
+/// In some histories all passwords are long passphrases that agree in their first 64-110 bytes
+/// and differ only at the end (a passphrase rotated at its tail)
+fn choose_stem(rng: &mut Rng) {
+    let stem = if rng.chance(0.3) {
+        let mut s = String::new();
+        let want = *rng.pick(&[64usize, 65, 80, 110]);
+        while s.len() < want {
+            s.push_str(&format!("Hp{}-Tn{}_Rd{}#", rng.range(10, 99), rng.range(10, 99), rng.range(10, 99)));
+        }
+        s.truncate(want);
+        Some(s)
+    } else {
+        None
+    };
+    STEM.with(|c| *c.borrow_mut() = stem);
+}
 fn pw(rng: &mut Rng, tag: usize) -> String {
     // passes validate_password: >=12 chars, four classes, no common word, no 3-sequence
-    format!("Zq{}-Kx{}_Wv{}#{}", rng.range(10, 99), rng.range(10, 99), rng.range(10, 99), tag * 7 + 13)
+    let tail = format!("Zq{}-Kx{}_Wv{}#{}", rng.range(10, 99), rng.range(10, 99), rng.range(10, 99), tag * 7 + 13);
+    STEM.with(|c| match c.borrow().as_ref() {
+        Some(stem) => format!("{stem}{tail}"),
+        None => tail,
+    })
 }
 fn ss(s: &str) -> SecureString {
     SecureString::from_plain_str(s).expect("secure string")
@@ -71,6 +95,10 @@ fn expect_retrieve(m: &Model, id: &str, p: &str) -> Option<[u8; 32]> {
 }
 
 async fn history(mon: &Monitor, rng: &mut Rng) {
+    choose_stem(rng);
+    if STEM.with(|c| c.borrow().is_some()) {
+        mon.count("histories.long-passphrases-sharing-a-prefix", 1);
+    }
     let dir = scratch();
     let path = dir.join("keys.enc");
     let shots: Shots = Arc::new(Mutex::new(Vec::new()));
